@@ -412,7 +412,8 @@ def expected(s, package):
             exp["cues"] = [tuple(q[:6]) + (q[6].split(b"\0")[0][:255],) for q in cues]
             if len({q[0] for q in cues}) != len(cues):
                 exp["cue_names_unchecked"] = True
-        total += 12 + (sum(8 + len(q[6]) for q in cues) if c == "aiff" else 24 * len(cues))
+        # WAV: the names travel in a LIST/adtl chunk, one labl entry (id, size, cue id, text, NUL, pad) per named cue point
+        total += 12 + (sum(8 + len(q[6]) for q in cues) if c == "aiff" else 24 * len(cues) + sum(14 + len(q[6]) for q in cues if q[6]))
     # instrument
     acc = [val for (k, late, ok, val, raw, n) in s.calls if k == "inst" and ok]
     if acc and c in INST_SUPPORT:
